@@ -21,6 +21,42 @@ from vcore.tlaval import parse_dump, rat
 HL2P = 0.5 * math.log(2 * math.pi)
 
 
+def mog_sigma_fails(torch, dd):
+    """One mixture component: feature D is N(mu, sigma) given the others.  The density's mu and sigma are read
+    off its gradient / curvature in x_D; the sampler under the constant stream z = 1 must return mu + sigma
+    (also for narrow components and a non-default floor).  Returns failure messages."""
+    import copy as _copy
+
+    from nflows.nn.nde.made import MixtureOfGaussiansMADE
+
+    msgs = []
+    for narrow, eps_ in ((None, 1e-2), (-6.0, 1e-2), (None, 0.5)):
+        torch.manual_seed(7 + dd)
+        net = MixtureOfGaussiansMADE(features=dd, hidden_features=8, context_features=None, num_blocks=1, num_mixture_components=1, epsilon=eps_)
+        if narrow is not None:
+            with torch.no_grad():
+                net.final_layer.bias[2::3] = narrow
+                net.final_layer.weight[2::3] *= 0.0
+        net.eval()
+        orig_r = torch.randn
+        torch.randn = lambda *size, **kw: torch.ones(*size)
+        try:
+            xs = net.sample(2)
+        finally:
+            torch.randn = orig_r
+        xq = xs.clone().double().requires_grad_(True)
+        netd = _copy.deepcopy(net).double()
+        lp = netd.log_prob(xq).sum()
+        (g1,) = torch.autograd.grad(lp, xq, create_graph=True)
+        g2 = torch.autograd.grad(g1[:, dd - 1].sum(), xq)[0][:, dd - 1]
+        sig = (-1.0 / g2).sqrt()
+        mu = xq[:, dd - 1].detach() + sig ** 2 * g1[:, dd - 1].detach()
+        err = float((xs[:, dd - 1].double() - (mu + sig)).abs().max() / sig.min())
+        if not err < 1e-3:
+            msgs.append("MixtureOfGaussiansMADE(features=%d, 1 component, epsilon=%g%s): under the stream z = 1 the sampler returns mu + %.4g sigma of the density's component (density sigma %.4g)" % (dd, eps_, ", narrow component" if narrow else "", 1.0 + float(((xs[:, dd - 1].double() - mu - sig) / sig)[0]), float(sig[0])))
+    return msgs
+
+
 def case_task(states):
     warnings.filterwarnings("ignore")
     import torch
@@ -239,37 +275,8 @@ def case_task(states):
                                 fail("sampler", "MADEMoG(features=%d, components=%d): feature %d is sampled with component probabilities %s, the density's mixture weights are %s" % (dd, k, f_, seen[f_][0].tolist(), want[0, f_].tolist()))
                                 break
                 if k == 1:
-                    # one component: feature D is N(mu, sigma) given the others.  The density's mu and sigma
-                    # are read off its gradient / curvature in x_D; the sampler under the constant stream
-                    # z = 1 must return mu + sigma (also for narrow components and a non-default floor)
-                    from nflows.nn.nde.made import MixtureOfGaussiansMADE
-
-                    for narrow, eps_ in ((None, 1e-2), (-6.0, 1e-2), (None, 0.5)):
-                        torch.manual_seed(7 + dd)
-                        net = MixtureOfGaussiansMADE(features=dd, hidden_features=8, context_features=None, num_blocks=1, num_mixture_components=1, epsilon=eps_)
-                        if narrow is not None:
-                            with torch.no_grad():
-                                net.final_layer.bias[2::3] = narrow
-                                net.final_layer.weight[2::3] *= 0.0
-                        net.eval()
-                        orig_r = torch.randn
-                        torch.randn = lambda *size, **kw: torch.ones(*size)
-                        try:
-                            xs = net.sample(2)
-                        finally:
-                            torch.randn = orig_r
-                        xq = xs.clone().double().requires_grad_(True)
-                        import copy as _copy
-
-                        netd = _copy.deepcopy(net).double()
-                        lp = netd.log_prob(xq).sum()
-                        (g1,) = torch.autograd.grad(lp, xq, create_graph=True)
-                        g2 = torch.autograd.grad(g1[:, dd - 1].sum(), xq)[0][:, dd - 1]
-                        sig = (-1.0 / g2).sqrt()
-                        mu = xq[:, dd - 1].detach() + sig ** 2 * g1[:, dd - 1].detach()
-                        err = float((xs[:, dd - 1].double() - (mu + sig)).abs().max() / sig.min())
-                        if not err < 1e-3:
-                            fail("sampler", "MixtureOfGaussiansMADE(features=%d, 1 component, epsilon=%g%s): under the stream z = 1 the sampler returns mu + %.4g sigma of the density's component (density sigma %.4g)" % (dd, eps_, ", narrow component" if narrow else "", 1.0 + float(((xs[:, dd - 1].double() - mu - sig) / sig)[0]), float(sig[0])))
+                    for msg in mog_sigma_fails(torch, dd):
+                        fail("sampler", msg)
                 for r in range(max(rows, 1)):
                     c = ctxs[r : r + 1] if rows else None
                     f = (lambda q: m.log_prob(q, c.expand(q.shape[0], -1))) if rows else (lambda q: m.log_prob(q))
